@@ -58,6 +58,7 @@ type FuncContract struct {
 	GhostSets  []GhostSet // ghost assignments performed on entry (specification state updated by this function)
 	OwnReads   []string   // heap key prefixes: plain loads from these keys must read objects allocated by this activation
 	AtomicOnly []string   // captured variables of a goroutine body that may only be accessed through sync/atomic: no plain load or store may touch their cell
+	Guards     []Guard    // lock discipline: plain accesses to these keys need the condition
 	PointSets  []PointSet
 	OwnWrites  []string        // heap key prefixes: stores into these keys must target objects allocated by this activation
 	Calls      []string        // parameters holding functions the callee may invoke: their write sets are added at call sites
@@ -66,6 +67,12 @@ type FuncContract struct {
 	Safety     bool            // generate bounds/nil/div obligations
 	File       string
 	Line       int
+}
+
+// Guard: every plain load or store of a heap key with the prefix needs Cond (typically: the mutex is held).
+type Guard struct {
+	Prefix string
+	Cond   Clause
 }
 
 // PointSet: a ghost assignment at a program point (after a call made by the function's own body).
@@ -136,7 +143,7 @@ func newContractSet() *ContractSet {
 	return &ContractSet{Funcs: map[string]*FuncContract{}, Specs: map[string]*SpecFunc{}, Axioms: map[string]*Axiom{}, Ghosts: map[string]*GhostVar{}}
 }
 
-var keywordRe = regexp.MustCompile(`^(func|property|requires|ensures|modifies|loop|assert|trusted|inline|nopanic|safety|spec|axiom|lemma|invariant|ghostset|ghost|use|reveal|calls|ownwrites|ownreads|atomiconly|terminates|decreases|package)\b`)
+var keywordRe = regexp.MustCompile(`^(func|property|requires|ensures|modifies|loop|assert|trusted|inline|nopanic|safety|spec|axiom|lemma|invariant|ghostset|ghost|use|reveal|calls|ownwrites|ownreads|atomiconly|guarded|terminates|decreases|package)\b`)
 var labelRe = regexp.MustCompile(`^\[([A-Za-z0-9_.<>=%+\-]+)\]\s*(.*)$`)
 
 func canonFuncName(pkg, decl string) string {
@@ -373,6 +380,20 @@ func (cs *ContractSet) parseFile(path string, defaultPkg string) error {
 				return fmt.Errorf("%s:%d: ownreads outside func", path, it.line)
 			}
 			cur.OwnReads = append(cur.OwnReads, strings.Fields(it.text)...)
+		case "guarded":
+			// guarded <key prefix> by <expr>
+			if cur == nil {
+				return fmt.Errorf("%s:%d: guarded outside func", path, it.line)
+			}
+			m := regexp.MustCompile(`^(\S+)\s+by\s+(.*)$`).FindStringSubmatch(it.text)
+			if m == nil {
+				return fmt.Errorf("%s:%d: guarded <key prefix> by <expr>", path, it.line)
+			}
+			c, err := mkClause(m[2], it.line)
+			if err != nil {
+				return err
+			}
+			cur.Guards = append(cur.Guards, Guard{Prefix: m[1], Cond: c})
 		case "atomiconly":
 			if cur == nil {
 				return fmt.Errorf("%s:%d: atomiconly outside func", path, it.line)
